@@ -9,6 +9,16 @@ CHECKS = {
             "Generated call sequences (all put/copy/rename modes, multipart, every GetOptions combination, stale/foreign/garbage tokens, A->B->A rewrites, cold/warm cache, chunk sizes 1/7/16/64KiB) are applied to MetaStore / EncryptedStore and to the reference in-memory store and compared call by call; token freshness and one (size, token, timestamp) per commit are asserted as invariants. Held-on-everything-explored, not absence.",
             "Trusts object_store::memory::InMemory as the reference, the documented deviations normalised in DESIGN §5 C07 (no versions, invalid request = some error, delete(missing) NotFound, self-rename preserved, head carries metadata only, empty range list), and proptest. Concurrent callers per key are not explored by this check.",
             "§5 C07"),
+    "C08": ("vf-store", "fault_enumeration",
+            "crash-point enumeration over generated operation sequences (proptest) with a model oracle; generated schedules of GC vs parked in-process writers",
+            "For every generated sequence of wrapper mutations (incl. planted pre-0.10 legacy objects) the power is cut at EVERY inner-store mutation k (and again at every mutation of the collect_garbage that follows the restart); after a cold restart every key must read, through every read path, its last completed or the interrupted commit; GC never changes what a key reads, also while 1-2 in-process writers are parked between their payload write and pointer switch under generated schedules.",
+            "Crash model: each single backend call is atomic (object_store contract), power is lost between calls. Trusts the harness model (BTreeMap key->bytes), CtlStore/ParkStore wrappers, proptest. Encrypted legacy-layout objects and foreign-process writers are not generated.",
+            "§5 C08"),
+    "C09": ("vf-store", "exploration",
+            "systematic single-site tamper enumeration over generated write scripts (proptest), every read path checked against the written bytes; plaintext-window and nonce-reuse scans",
+            "For generated write scripts every single-site tamper of a systematic family (bit flips of every byte, every truncation, extensions, deletions, chunk swaps, object replacement/swaps, structured CBOR edits of every metadata field incl. every subset of stripped auth fields, re-pointed generations, earlier authentic documents) is applied and every read path must return the written bytes or fail; backend objects are scanned for plaintext windows and nonce reuse after every write.",
+            "Single-site tampering only (the property's quantifier); coordinated roll-back of metadata AND payload is outside it. AES-GCM and the CBOR codec are trusted; nonce uniqueness is only checked over generated histories.",
+            "§5 C09"),
 }
 
 NOT_YET = {
